@@ -44,6 +44,11 @@ CONSTANTS Ids,          \* document ids
                          \* FALSE: an epoch is eligible as soon as nobody holds it (most aggressive purging)
           BuilderBase,   \* TRUE: the index was made by the offline builder (builder.go) and is then used online:
                          \* one recorded snapshot whose only segment has an id that is NOT the number of its file
+          MaxRestarts,   \* how often the process may die and the index be opened again (0: never)
+          SidFromRoot,   \* FALSE (the code): after reopening, new segment ids start beyond every file NUMBER found
+                         \* in the directory; TRUE: the deviating design "beyond the ids of the recovered root"
+          ForgetInherited, \* FALSE (the code): loadFromBolt registers every recorded snapshot older than the one it
+                         \* loads as eligible for removal; TRUE: the deviating design that stops at the root
           CopySchedById  \* FALSE (the code): CopyReader schedules a persisted segment under the name of its file
                          \* and an in-memory one under the name its id will give it; TRUE: the deviating design
                          \* "a file is named after its segment id" (refuted for a builder-made base)
@@ -66,10 +71,11 @@ VARIABLES batch,        \* b -> [puts, dels]   (collapsed ops of batch b)
           rdr,          \* snapshot held by a reader, or NoSnap
           cPc, cSnap, cSched, cCopied,  \* online copy
           dirty,        \* disk/inel/bolt/elig changed since the last purge round began
-          nopen         \* number of readers / copies opened so far (bounded by MaxOpens)
+          nopen,        \* number of readers / copies opened so far (bounded by MaxOpens)
+          rst           \* [n, base]: restarts so far, and the epoch the current process life started from
 vars == <<batch, nsub, intro, segdocs, root, nextEp, nextSid, wst, pend, acked,
           pPc, pSnap, pAcks, pNew, lastP, mPc, mSnap, mTask, mNew, lastM,
-          bolt, disk, inel, elig, rdr, cPc, cSnap, cSched, cCopied, dirty, nopen>>
+          bolt, disk, inel, elig, rdr, cPc, cSnap, cSched, cCopied, dirty, nopen, rst>>
 
 -----------------------------------------------------------------------------
 -----------------------------------------------------------------------------
@@ -87,6 +93,9 @@ FileOf(s) == IF BuilderBase /\ s = BuilderSid THEN BuilderFile ELSE s
 FN(S) == { FileOf(s) : s \in S }
 \* segments whose file is in the directory
 DiskSids == { s \in 1..(MaxSid + 1) : (BuilderBase => s # BuilderFile) /\ FileOf(s) \in disk }
+\* what a kill at this instant recovers: the newest recorded snapshot all of whose files are present
+RecEp == RecEpOf(bolt, DiskSids)
+RecSnap == IF RecEp = 0 THEN NoSnap ELSE bolt[RecEp]
 LiveDocs(snap) == LiveDocsOf(segdocs, snap)
 Replay(k) == ReplayOf(batch, intro, k)
 NoBatch == [puts |-> {}, dels |-> {}]
@@ -119,7 +128,7 @@ Init == /\ IF BuilderBase THEN InitBuilt ELSE InitEmpty
         /\ pend = {}
         /\ pPc = "idle" /\ pSnap = NoSnap /\ pAcks = {} /\ pNew = 0
         /\ mPc = "idle" /\ mSnap = NoSnap /\ mTask = {} /\ mNew = 0 /\ lastM = 0
-        /\ inel = {} /\ elig = {}
+        /\ inel = {} /\ elig = {} /\ rst = [n |-> 0, base |-> 0]
         /\ rdr = NoSnap
         /\ cPc = "idle" /\ cSnap = NoSnap /\ cSched = {} /\ cCopied = {}
         /\ dirty = FALSE /\ nopen = 0
@@ -248,6 +257,7 @@ PAck ==
 \* (asynchronous; modelled as an independent step for any epoch nobody holds)
 Release(e) ==
   /\ AsyncRelease /\ e \in 1..(nextEp - 1) /\ e # root.ep /\ e \notin Held /\ e \notin elig
+  /\ e >= rst.base      \* only a snapshot object of THIS process life has a reference count to drop
   /\ elig' = elig \cup {e}
   /\ UNCHANGED <<batch, nsub, intro, segdocs, root, nextEp, nextSid, wst, pend, acked, pPc, pSnap, pAcks, pNew, lastP,
                  mPc, mSnap, mTask, mNew, lastM, bolt, disk, inel, rdr, cPc, cSnap, cSched, cCopied, nopen>>
@@ -262,7 +272,7 @@ PWakePurge ==
                  mPc, mSnap, mTask, mNew, lastM, bolt, disk, inel, elig, rdr, cPc, cSnap, cSched, cCopied, dirty, nopen>>
 
 \* removeOldBoltSnapshots: eligible epochs that are not among the newest KeepN
-EligNow == IF AsyncRelease THEN elig ELSE { e \in 1..(nextEp - 1) : e # root.ep /\ e \notin Held }
+EligNow == IF AsyncRelease THEN elig ELSE elig \cup { e \in 1..(nextEp - 1) : e >= rst.base /\ e # root.ep /\ e \notin Held }
 PPurgeB ==
   /\ pPc = "purgeB"
   /\ LET rem == { e \in EligNow : e \notin NewestOf(bolt, KeepN) } IN
@@ -365,12 +375,43 @@ CClose == /\ cPc = "copying" /\ cCopied = Sids(cSnap)
                          mPc, mSnap, mTask, mNew, lastM, bolt, disk, inel, elig, rdr, cCopied, nopen>>
           /\ dirty' = TRUE
 
-Next == \/ \E w \in Writers, bt \in BatchShapes : Prepare(w, bt)
+\* ---------------- the process dies and the index is opened again ----------------
+\* (scorch.go openBolt: loadFromBolt, then removeOldZapFiles)
+\* What a kill leaves behind is bolt and disk; everything else is volatile.  Opening
+\* loads the newest recorded snapshot whose files are present (RecSnap), registers
+\* every OLDER recorded snapshot as eligible for removal (they have no snapshot
+\* object whose release would do it), starts segment ids beyond every file number
+\* in the directory, epochs beyond the loaded one, and sweeps the files no recorded
+\* snapshot names.  Batches introduced after the loaded snapshot are gone: the
+\* introduction order is cut back to it.  Enabled in EVERY state (a kill), so it
+\* also covers Close + Open.
+MaxOf(S) == IF S = {} THEN 0 ELSE CHOOSE x \in S : \A y \in S : y <= x
+Restart ==
+  /\ rst.n < MaxRestarts
+  /\ LET rs == RecSnap IN
+     /\ rst' = [n |-> rst.n + 1, base |-> rs.ep]
+     /\ root' = rs /\ intro' = SubSeq(intro, 1, rs.k)
+     /\ acked' = acked \cap { intro[i] : i \in 1..rs.k }
+     /\ elig' = IF ForgetInherited THEN {} ELSE BoltEps \ {rs.ep}
+     /\ disk' = disk \cap FN(Named)
+     /\ nextEp' = rs.ep + 1
+     /\ nextSid' = (IF SidFromRoot THEN MaxOf(Sids(rs)) ELSE MaxOf(disk)) + 1
+     /\ lastP' = rs.ep
+  /\ wst' = [w \in Writers |-> IdleW] /\ pend' = {}
+  /\ pPc' = "idle" /\ pSnap' = NoSnap /\ pAcks' = {} /\ pNew' = 0
+  /\ mPc' = "idle" /\ mSnap' = NoSnap /\ mTask' = {} /\ mNew' = 0 /\ lastM' = 0
+  /\ inel' = {} /\ rdr' = NoSnap
+  /\ cPc' = "idle" /\ cSnap' = NoSnap /\ cSched' = {} /\ cCopied' = {}
+  /\ dirty' = TRUE
+  /\ UNCHANGED <<batch, nsub, segdocs, bolt, nopen>>
+
+NextLife == \/ \E w \in Writers, bt \in BatchShapes : Prepare(w, bt)
         \/ \E w \in Writers : IntroSegment(w) \/ BatchReturn(w)
         \/ PTake \/ PMMWrite \/ PMMIntro \/ PMMCommit \/ PWrite \/ PIntro \/ PCommit \/ PAck
         \/ (WithPurge /\ ((\E e \in 1..MaxEp : Release(e)) \/ PWakePurge \/ PPurgeB \/ PPurgeZ))
         \/ MTake \/ (\E T \in SUBSET Files(mSnap) : MPlanWrite(T)) \/ MIntro \/ MClean \/ MFail
         \/ ROpen \/ RClose \/ COpen \/ (\E s \in 1..MaxSid : CFile(s)) \/ CClose
+Next == (NextLife /\ UNCHANGED rst) \/ Restart
 Spec == Init /\ [][Next]_vars
 
 -----------------------------------------------------------------------------
@@ -402,9 +443,7 @@ RootFilesProtected ==
   \A f \in Files(root) : \/ f \in Named \/ FileOf(f) \in inel
                           \/ (pPc = "commit" /\ f \in MemSids(pSnap))
 
-\* C03: what a kill at this instant recovers
-RecEp == RecEpOf(bolt, DiskSids)
-RecSnap == IF RecEp = 0 THEN NoSnap ELSE bolt[RecEp]
+\* C03: what a kill at this instant recovers (RecEp, RecSnap: defined with DiskSids above)
 Durable == /\ LiveDocs(RecSnap) = Replay(RecSnap.k)
            /\ \A b \in acked : \E i \in 1..RecSnap.k : intro[i] = b
 \* the newest snapshot in the metadata store is always loadable (no silent fallback)
@@ -424,8 +463,16 @@ Quiescent == /\ ~dirty /\ pPc = "idle" /\ mPc = "idle" /\ rdr = NoSnap /\ cPc = 
              /\ root.ep = lastP /\ (WithMerger => root.ep = lastM) /\ pend = {}
              /\ \A w \in Writers : wst[w].st = "idle"
 NoOrphansWhenQuiescent == Quiescent => (disk \subseteq FN(Named) /\ inel = {})
-\* retention: never more epochs than KeepN beyond those not yet released
-RetentionOK == Cardinality(BoltEps \ (elig \cup {root.ep} \cup Held \cup {lastP})) <= KeepN
+\* retention: once writing stopped and background work settled, the metadata store
+\* holds at most KeepN snapshots (with AsyncRelease the releases must have happened:
+\* checked in the configs where eligibility is immediate)
+RetentionWhenQuiescent == (Quiescent /\ ~AsyncRelease) => Cardinality(BoltEps) <= KeepN
+
+\* C03 / C12 after reopening: a segment id handed out from now on never names a
+\* file that is already in the directory (zapx opens segment files without
+\* truncating them: a new segment written over an older, longer file keeps the old
+\* footer and cannot be read back)
+NewNamesUnused == \A s \in nextSid..(MaxSid + 1) : FileOf(s) \notin disk
 
 \* C14: the copy's content is the snapshot taken at CopyOpen, a replay prefix
 CopyIsPrefix == cPc # "idle" => LiveDocs(cSnap) = Replay(cSnap.k)
